@@ -83,6 +83,11 @@ def job_list(thorough, rng):
                 for sc in scen:
                     jobs.append({'two_d': two_d, 'name': name, 'kw': kw, 'with_x': with_x, 'scenario': sc, 'family': fam,
                                  'seed': int(rng.integers(0, 2 ** 31))})
+            if two_d:
+                # a Baseline2D created with only x or only z: the first call creates the missing axis (and completes the shape)
+                for part in ('x', 'z'):
+                    jobs.append({'two_d': True, 'name': name, 'kw': kw, 'with_x': part, 'scenario': 'cold', 'family': fam,
+                                 'seed': int(rng.integers(0, 2 ** 31))})
     # parameter variants that change the shared-cache protocol
     for two_d in (False, True):
         for sc in ('cold', 'warm', 'other-poly'):
@@ -176,6 +181,10 @@ def other_kwargs(job, kw):
 
 def make_obj(cls, job, x, z):
     if job['two_d']:
+        if job['with_x'] == 'x':
+            return cls(x_data=x)
+        if job['with_x'] == 'z':
+            return cls(z_data=z)
         return cls(x, z) if job['with_x'] else cls()
     return cls(x) if job['with_x'] else cls()
 
@@ -520,8 +529,9 @@ def trace_checks(ctx, jobs, dis):
             ev = project(log, sid, {'x', 'z', '_Algorithm2D__shape', '_size'})
             toks = [{'R': {'x': 'rX', 'z': 'rZ', '_Algorithm2D__shape': 'rShape', '_size': 'rSizeBody'},
                      'W': {'x': 'wX', 'z': 'wZ', '_Algorithm2D__shape': 'wShape', '_size': 'wSize'}}[kd][nm] for kd, nm in ev]
-            given = job['with_x'] or job['scenario'] != 'cold'
-            lines.append(f'c04.trace lazy2 1 {int(given)} {int(given)}')
+            gx = job['with_x'] in (True, 'x') or job['scenario'] != 'cold'
+            gz = job['with_x'] in (True, 'z') or job['scenario'] != 'cold'
+            lines.append(f'c04.trace lazy2 1 {int(gx)} {int(gz)}')
             metas.append(('lazy', job, toks))
         # 2. polynomial cache (1-D helper): the real trace must be one of the proven programs
         evp = project(full, sid, POLY_FIELDS)
@@ -710,13 +720,13 @@ def correspond(ctx):
                  sample={'method': ('2d.' if job['two_d'] else '') + job['name'], 'created_with_x': job['with_x'], 'cache': job['scenario'],
                          'access_points_per_call': out['points'], 'schedules_run': out['runs']} if len(ctx.samples) < 6 and out['runs'] > 20 else None)
         ctx.count('family:' + job['family'])
-        ctx.count('start:' + ('with-x' if job['with_x'] else 'without-x') + ':' + job['scenario'])
+        ctx.count('start:' + ('only-' + job['with_x'] if isinstance(job['with_x'], str) else 'with-x' if job['with_x'] else 'without-x') + ':' + job['scenario'])
         if out['note']:
             ctx.count('note:' + out['note'][:40])
         for fl in out['fails'][:1]:
             nm = ('2d.' if job['two_d'] else '') + job['name']
-            dis.append(Disagreement('c04.schedule', f'{nm}:{job["scenario"]}:{"x" if job["with_x"] else "nox"}',
-                                    f'{nm}({job["kw"]}) on a shared object created {"with" if job["with_x"] else "without"} x, cache {job["scenario"]}, '
+            dis.append(Disagreement('c04.schedule', f'{nm}:{job["scenario"]}:{("only" + job["with_x"]) if isinstance(job["with_x"], str) else ("x" if job["with_x"] else "nox")}',
+                                    f'{nm}({job["kw"]}) on a shared object created {("with only " + job["with_x"]) if isinstance(job["with_x"], str) else ("with x" if job["with_x"] else "without x")}, cache {job["scenario"]}, '
                                     f'{fl["threads"]} threads, schedule {compact(fl["plan"])}: thread {fl["thread"]} -> {fl["outcome"]} (serial calls succeed)',
                                     {'job': job, 'plan': fl['plan'], 'threads': fl['threads'], 'extra': fl.get('extra', [])}, True))
     ctx.traces += total_runs
